@@ -10,6 +10,7 @@ import PoetryVerif.Proofs.VRangePred
 import PoetryVerif.Proofs.VRangeWalk
 import PoetryVerif.Proofs.VRangeInv
 import PoetryVerif.Proofs.VRangeSelf
+import PoetryVerif.Proofs.VRangePredU
 
 set_option linter.unusedSimpArgs false
 set_option linter.unusedVariables false
@@ -176,6 +177,46 @@ theorem allows_any_iff_intersect_union (rs : List RC) (b : VC)
     ∃ y, VC.allowsAny (.union rs) b = .ok y ∧
       ∀ res, VC.intersect (.union rs) b = .ok res → y = !res.isEmpty :=
   union_allowsAny_iff_intersect rs b ho ht
+
+/-- **every well-formed constraint allows all of itself and, unless it is the empty constraint, any of itself**
+(unions included; no hypothesis on the bounds) -/
+theorem self_laws (a : VC) (hwf : a.WF) :
+    VC.allowsAll a a = .ok true ∧ (a.isEmpty = false → VC.allowsAny a a = .ok true) :=
+  VC.self_laws a hwf
+
+/-- **`allows_all` never raises and a yes is sound, for any two constraints** with well-formed members (unions
+included; membership as the disjunction over members, which is the real `allows` in the regular setting). -/
+theorem allows_all_sound (a b : VC) (hma : ∀ c ∈ a.flatten, c.WF) (hmb : ∀ c ∈ b.flatten, c.WF) :
+    ∃ x, VC.allowsAll a b = .ok x ∧
+      (x = true → ∀ p, p.wf = true → Regular (boundsOf a.flatten ++ boundsOf b.flatten) p →
+        b.allowsPlain p = true → a.allowsPlain p = true) :=
+  VC.allowsAll_sound_gen a b hma hmb
+
+/-- **C12 for arbitrary constraints in the regular setting.**  Extra hypothesis (named): `RegB B` — the bounds
+are mutually regular and none is a local build.  Then for any two well-formed constraints: `allows_all` and
+`allows_any` never raise; with the real `allows`: a yes of `allows_all` and a no of `allows_any` are sound on
+regular probes; `allows_any` is yes exactly when `intersect` (which is defined) is not the empty constraint; and
+the self laws hold. -/
+theorem C12_regular_partial {B : List Version} (hB : RegB B) (a b : VC) (ha : a.WF) (hb : b.WF)
+    (hma : ∀ c ∈ a.flatten, RegMember B c) (hmb : ∀ c ∈ b.flatten, RegMember B c) :
+    ∃ x y i, VC.allowsAll a b = .ok x ∧ VC.allowsAny a b = .ok y ∧ VC.intersect a b = .ok i ∧
+      y = !i.isEmpty ∧
+      (∀ p, p.wf = true → Regular (boundsOf a.flatten ++ boundsOf b.flatten) p →
+        ∃ pa pb, a.allows p = .ok pa ∧ b.allows p = .ok pb ∧
+          (x = true → pb = true → pa = true) ∧ (y = false → ¬ (pa = true ∧ pb = true))) ∧
+      VC.allowsAll a a = .ok true ∧ (a.isEmpty = false → VC.allowsAny a a = .ok true) := by
+  obtain ⟨x, hx, hxs⟩ := VC.allowsAll_sound_gen a b (fun c hc => (hma c hc).1) (fun c hc => (hmb c hc).1)
+  obtain ⟨y, i, hy, hi, hyi⟩ := VC.allowsAny_eq_intersect_reg hB a b ha hb hma hmb
+  obtain ⟨i', hi', _, _, hex⟩ := VC.intersect_reg hB a b ha hb hma hmb
+  rw [hi] at hi'; cases hi'
+  refine ⟨x, y, i, hx, hy, hi, hyi, fun p hp hreg => ?_, VC.self_laws a ha⟩
+  refine ⟨_, _, VC.allows_of_reg hB a ha hma p, VC.allows_of_reg hB b hb hmb p, fun hxt hpb => hxs hxt p hp hreg hpb,
+    fun hyf h => ?_⟩
+  have hemp : i.isEmpty = true := by rw [hyi] at hyf; simpa using hyf
+  have := hex p hp hreg
+  rw [h.1, h.2] at this
+  cases i <;> simp [VC.isEmpty] at hemp
+  simp [VC.allowsPlain, VC.flatten] at this
 
 /-- The property at full strength, for arbitrary constraints (unions included).  Proved above for
 non-union operands (`*_member`), range-vs-union containment and the soundness of the union merge walks
